@@ -7,10 +7,11 @@ wt="$1"; patch="$2"; shift 2
 cd "$(dirname "$0")" || exit 2
 . ./env.sh
 git -C "$wt" checkout -q -- . || exit 2
-git -C "$wt" apply "$patch" || { echo "PATCH-DOES-NOT-APPLY"; exit 3; }
+( cd "$wt" && patch -p1 -s -f --no-backup-if-mismatch -i "$patch" >/dev/null ) || { echo "PATCH-DOES-NOT-APPLY"; git -C "$wt" checkout -q -- .; find "$wt" -name "*.rej" -not -path "*/SEED/*" -delete; exit 3; }
 out=$(mktemp -d /tmp/zyseed.XXXXXX)
 for p in "$@"; do
   bin/zycheck -prop "$p" -tier quick -repo "$wt" -verif "$(pwd)" -out "$out" | grep -v '^    \|^KNOWN\|^VIOLATION property' | cut -c1-${SEED_COLS:-330} | tail -${SEED_TAIL:-8}
 done
 rm -rf "$out"
 git -C "$wt" checkout -q -- .
+find "$wt" -name "*.rej" -not -path "*/SEED/*" -delete
